@@ -13,24 +13,38 @@ timestamp; OR-set ∋ x ⇔ some seen add of x is not observed by a seen remove 
 -/
 namespace HappyModel.C18
 
-/-- what an implementation reported for one event -/
+/-- what an implementation reported for one event `b`: its three timestamps and, for every event `a`
+    of the history (by id), the answers of the implementation's own vector-clock comparison
+    `V(a).happened_before(V(b))` and `V(a).is_concurrent(V(b))` -/
 structure Obs where
   L : Nat
   V : Vec
   H : HTs
+  hbIn : List Bool := []
+  ccIn : List Bool := []
 deriving Repr
 
 def HTs.ltb (a b : HTs) : Bool := a.p < b.p || (a.p == b.p && a.l < b.l)
 
-/-- all pairs (a, b) of logged events; `recs` carries id and K, `obs` is indexed by id -/
+/-- all pairs (a, b) of logged events; `recs` carries id and K, `obs` is indexed by id.
+    "vector clocks order a before b exactly when a happened before b" is judged twice: on the
+    reported vectors (compared by the specification's own componentwise order, absent = 0) and on
+    the implementation's own verdicts `happened_before` / `is_concurrent` -/
 def judgePair (ra rb : Rec) (oa ob : Obs) : Option String :=
   let inPast := rb.K.contains ra.id
+  let inFuture := ra.K.contains rb.id
   if ra.id == rb.id then none else
   if inPast && !(oa.L < ob.L) then some "clocks/lamport/hb-not-increasing"
   else if inPast && !(HTs.ltb oa.H ob.H) then some "clocks/hlc/hb-not-increasing"
   else if inPast && !(vcHappenedBefore oa.V ob.V) then some "clocks/vector/hb-but-not-less"
   else if !inPast && vcHappenedBefore oa.V ob.V then some "clocks/vector/less-but-not-hb"
-  else none
+  else match ob.hbIn[ra.id]?, ob.ccIn[ra.id]? with
+    | some hb, some cc =>
+      if inPast && !hb then some "clocks/vector/hb-but-not-ordered"
+      else if !inPast && hb then some "clocks/vector/ordered-but-not-hb"
+      else if cc != (!inPast && !inFuture) then some "clocks/vector/concurrent-iff-unrelated"
+      else none
+    | _, _ => some "clocks/missing-observation"
 
 def judgeClocks (recs : List Rec) (obs : Nat → Option Obs) : Option String :=
   recs.findSome? fun ra => recs.findSome? fun rb =>
